@@ -274,4 +274,86 @@ theorem pingLoopFrom_running (os : List TickOutcome) : ∀ base, (∀ o ∈ os, 
     simp only [pingLoopFrom]
     exact ih _ (fun o ho => h o (by simp [ho]))
 
+theorem rev_induction {α : Type} {P : List α → Prop} (hnil : P [])
+    (hsnoc : ∀ l a, P l → P (l ++ [a])) : ∀ l, P l := by
+  have h : ∀ l : List α, P l.reverse := by
+    intro l
+    induction l with
+    | nil => exact hnil
+    | cons a l ih => rw [List.reverse_cons]; exact hsnoc _ a ih
+  intro l
+  have := h l.reverse
+  rwa [List.reverse_reverse] at this
+
+theorem run_append (xs ys : List Action) : ∀ s, run s (xs ++ ys) = (run s xs).bind (fun s' => run s' ys) := by
+  induction xs with
+  | nil => intro s; rfl
+  | cons a rest ih =>
+    intro s
+    simp only [List.cons_append, run]
+    cases step s a with
+    | none => rfl
+    | some s' => exact ih s'
+
+/-- Pings are never removed, and a ping that appears in a step is a fresh one (no pong counted). -/
+theorem step_pings (s s' : State) (a : Action) (h : step s a = some s') (p : Nat) :
+    (∀ pg, s.pings[p]? = some pg → ∃ pg', s'.pings[p]? = some pg') ∧
+    (s.pings[p]? = none → ∀ pg', s'.pings[p]? = some pg' → pg'.pongs = 0) := by
+  cases a with
+  | call id =>
+    simp only [step, Option.some.injEq] at h
+    subst h
+    refine ⟨fun pg hp => ?_, fun hn pg' hp' => ?_⟩
+    · have hl : p < s.pings.length := by
+        obtain ⟨hl, _⟩ := List.getElem?_eq_some_iff.mp hp; exact hl
+      exact ⟨pg, by simp only [List.getElem?_append_left hl]; exact hp⟩
+    · have hge : s.pings.length ≤ p := by
+        rcases Nat.lt_or_ge p s.pings.length with hl | hge
+        · have := List.getElem?_eq_none_iff.mp hn; omega
+        · exact hge
+      rw [List.getElem?_append_right hge] at hp'
+      cases hq : p - s.pings.length with
+      | zero => rw [hq] at hp'; simp at hp'; subst hp'; rfl
+      | succ q => rw [hq] at hp'; simp at hp'
+  | pong id =>
+    simp only [step, Option.some.injEq] at h
+    subst h
+    refine ⟨fun pg hp => ?_, fun hn pg' hp' => ?_⟩
+    · exact ⟨_, by simp only [pongPings_getElem?, hp, Option.map_some]; rfl⟩
+    · simp [pongPings_getElem?, hn] at hp'
+  | retOk q =>
+    simp only [step] at h
+    cases hq : s.pings[q]? with
+    | none => simp [hq] at h
+    | some pq =>
+      simp only [hq] at h
+      split at h
+      · simp only [Option.some.injEq] at h
+        subst h
+        refine ⟨fun pg hp => ?_, fun hn pg' hp' => ?_⟩
+        · by_cases hk : p = q
+          · subst hk; exact ⟨_, by simp only [setRet_getElem?, if_true, hp, Option.map_some]; rfl⟩
+          · exact ⟨pg, by simp only [setRet_getElem?, hk, if_false]; exact hp⟩
+        · by_cases hk : p = q
+          · subst hk; rw [hq] at hn; cases hn
+          · simp [setRet_getElem?, hk, hn] at hp'
+      · cases h
+  | retErr q =>
+    simp only [step] at h
+    cases hq : s.pings[q]? with
+    | none => simp [hq] at h
+    | some pq =>
+      simp only [hq] at h
+      split at h
+      · simp only [Option.some.injEq] at h
+        subst h
+        refine ⟨fun pg hp => ?_, fun hn pg' hp' => ?_⟩
+        · by_cases hk : p = q
+          · subst hk; exact ⟨_, by simp only [setRet_getElem?, if_true, hp, Option.map_some]; rfl⟩
+          · exact ⟨pg, by simp only [setRet_getElem?, hk, if_false]; exact hp⟩
+        · by_cases hk : p = q
+          · subst hk; rw [hq] at hn; cases hn
+          · simp [setRet_getElem?, hk, hn] at hp'
+      · cases h
+
 end TdModel.C43
